@@ -231,6 +231,18 @@ type memStream[T any, PT interface {
 	onSend     func(m PT)
 	// fault injection: the transport was cut by a timer while the stream was idle
 	timedOut atomic.Bool
+	// the status code the client sees for an injected failure (0 = Unavailable); a peer reset shows up as Canceled,
+	// a proxy as Internal / Unknown / DeadlineExceeded ... - the adapter must treat them alike
+	failCode codes.Code
+}
+
+func (s *memStream[T, PT]) injected() error {
+	code := s.failCode
+	if code == codes.OK {
+		code = codes.Unavailable
+	}
+
+	return status.Error(code, "injected transport failure")
 }
 
 func newMemStream[T any, PT interface {
@@ -304,7 +316,7 @@ func (s *memStream[T, PT]) CloseSend() error             { return nil }
 
 func (s *memStream[T, PT]) finish(err error) {
 	if s.breakAfter >= 0 && s.sent >= s.breakAfter || s.timedOut.Load() {
-		err = status.Error(codes.Unavailable, "injected transport failure")
+		err = s.injected()
 	}
 
 	s.err = toStatus(err)
@@ -382,6 +394,10 @@ func (c *memClient) Watch(ctx context.Context, in *v1alpha1.WatchRequest, _ ...g
 
 	s := newMemStream[v1alpha1.WatchResponse](ctx, breakAfter)
 
+	if c.watchFaults != nil && call >= 0 && call < len(c.watchFaults.plan) {
+		s.failCode = codes.Code(c.watchFaults.plan[call].Code)
+	}
+
 	if c.watchRec != nil {
 		s.onSend = func(m *v1alpha1.WatchResponse) { c.watchRec(call, "msg", m, nil) }
 	}
@@ -435,6 +451,7 @@ type watchFault struct {
 	FailDial   bool  `json:"fail_dial,omitempty"`
 	CutAfter   int64 `json:"cut_after,omitempty"` // the stream fails this long (ns) after it was opened, even when idle
 	Foreign    bool  `json:"foreign,omitempty"`   // this call reaches a different server incarnation (fresh state, other cookie)
+	Code       int   `json:"code,omitempty"`      // gRPC status code the client sees for this failure (0 = Unavailable)
 }
 
 func (p *watchFaultPlan) next() (int, error) {
@@ -449,7 +466,12 @@ func (p *watchFaultPlan) next() (int, error) {
 	}
 
 	if p.plan[i].FailDial {
-		return -1, status.Error(codes.Unavailable, "injected dial failure")
+		code := codes.Code(p.plan[i].Code)
+		if code == codes.OK {
+			code = codes.Unavailable
+		}
+
+		return -1, status.Error(code, "injected dial failure")
 	}
 
 	return p.plan[i].BreakAfter, nil
